@@ -4,11 +4,15 @@
    The projection under construction is a Python dict whose keys are location parts (str for
    member names, int for array indices) and whose values are either further such dicts
    ([PNode]) or (copies of) selected document values ([PLeaf]).
-   Outside the model: a relative query that selects the match itself (empty parts ->
-   IndexError in _patch_obj) and a selection below an already selected node (the walk would
-   enter the copied value and Python's `in` on a list means value membership): both answer
-   EUnsupported; the property restricts selections to distinct, non-nested nodes below the match. *)
+   A walk that meets an already selected node enters the copied value, as the code does
+   ([patch_value]): a copied dict is walked / extended by member name and the last part is
+   assigned in it; a copied list is indexed (Python's `part not in _obj` on a list is VALUE
+   membership, `_obj[part] = {}` replaces the element); scalars raise TypeError.
+   Outside the model (EUnsupported): a relative query that selects the match itself (empty
+   parts -> IndexError in _patch_obj) and an integer part applied to a copied dict (it would
+   add an int key to a str-keyed dict, which [json] cannot hold). *)
 From JP Require Import Base Json Syntax Eval.
+From JP Require Patch.        (* dict assignment / list item assignment: Patch.dict_set, Patch.list_set *)
 
 Inductive ptree := PLeaf (v : json) | PNode (ms : list (part * ptree)).
 
@@ -25,6 +29,48 @@ Fixpoint pt_set (ms : list (part * ptree)) (p : part) (t : ptree) : list (part *
   | (p', t') :: ms' => if part_eqb p p' then (p', t) :: ms' else (p', t') :: pt_set ms' p t
   end.
 
+(* _patch_obj continued inside a copied value [d] (the walk met an already selected node):
+     for part in parts[:-1]:
+         if part not in _obj: _obj[part] = {}
+         _obj = _obj[part]
+     _obj[parts[-1]] = copy.deepcopy(value)                                            *)
+Fixpoint patch_value (parts : list part) (d : json) (value : json) {struct parts} : result json :=
+  match parts with
+  | [] => Err EUnsupported
+  | [p] =>
+      match d, p with
+      | JObj ms, PKey k => Ok (JObj (Patch.dict_set ms k value))
+      | JObj _, PIdx _ => Err EUnsupported                      (* an int key in a str-keyed dict *)
+      | JArr xs, PIdx i =>
+          if Nat.ltb i (length xs) then Ok (JArr (Patch.list_set xs i value))
+          else Err (EBuiltin BIndexError)                       (* list assignment index out of range *)
+      | JArr _, PKey _ => Err (EBuiltin BTypeError)             (* list indices must be integers *)
+      | _, _ => Err (EBuiltin BTypeError)                       (* ... does not support item assignment *)
+      end
+  | p :: rest =>
+      match d, p with
+      | JObj ms, PKey k =>
+          match lookup k ms with
+          | Some c => c' <- patch_value rest c value ;; Ok (JObj (Patch.dict_set ms k c'))
+          | None => c' <- patch_value rest (JObj []) value ;; Ok (JObj (Patch.dict_set ms k c'))
+          end
+      | JObj _, PIdx _ => Err EUnsupported
+      | JArr xs, PIdx i =>
+          (* `i not in _obj` on a list: is the integer i one of the ELEMENTS *)
+          if py_in_list (JNum (num_of_Z (Z.of_nat i))) xs then
+            match nth_opt xs i with
+            | Some c => c' <- patch_value rest c value ;; Ok (JArr (Patch.list_set xs i c'))
+            | None => Err (EBuiltin BIndexError)                (* list index out of range *)
+            end
+          else if Nat.ltb i (length xs) then
+            (* _obj[i] = {} replaces the element, the walk continues in the new dict *)
+            c' <- patch_value rest (JObj []) value ;; Ok (JArr (Patch.list_set xs i c'))
+          else Err (EBuiltin BIndexError)
+      | JArr _, PKey _ => Err (EBuiltin BTypeError)
+      | _, _ => Err (EBuiltin BTypeError)                       (* `in` / indexing on a scalar *)
+      end
+  end.
+
 (* _patch_obj(parts, obj, value) *)
 Fixpoint patch_obj (parts : list part) (obj : list (part * ptree)) (value : json)
   : result (list (part * ptree)) :=
@@ -35,7 +81,8 @@ Fixpoint patch_obj (parts : list part) (obj : list (part * ptree)) (value : json
       match pt_lookup p obj with
       | None => sub <- patch_obj rest [] value ;; Ok (pt_set obj p (PNode sub))
       | Some (PNode ms) => sub <- patch_obj rest ms value ;; Ok (pt_set obj p (PNode sub))
-      | Some (PLeaf _) => Err EUnsupported         (* walking into an already selected value *)
+      | Some (PLeaf d) =>                          (* walking into an already selected value *)
+          d' <- patch_value rest d value ;; Ok (pt_set obj p (PLeaf d'))
       end
   end.
 
